@@ -7,7 +7,7 @@ from .C01 import check_zero_fill
 
 META = {
     'title': 'padding: block iterator protocol, per-scheme pad formulas (tabulated), counters, remove() mirrors',
-    'expected_min': 30,
+    'expected_min': 136,
     'explanation': 'iterblocks/lastblock/remove/reset of every padding scheme are normalised to terms and compared with '
                    'restatements of the scheme definitions; the pad-length formulas (q for PKCS#7/X9.23/ISO 7816-4, the '
                    'zero fill N of MD/SHA/BLAKE strengthening) are bound through holes and tabulated over their whole domain; '
